@@ -51,7 +51,12 @@ func (q *vfWsQueue) written(mark int) []byte {
 	return q.buf[len(q.buf)-n:]
 }
 
-type vfWsEnd struct{ in, out *vfWsQueue }
+// chunk > 0: the transport hands the reader at most chunk bytes per Read (delivery granularity);
+// 0: everything that is buffered, so that bufio refills happen at its own boundaries.
+type vfWsEnd struct {
+	in, out *vfWsQueue
+	chunk   int
+}
 
 func (e *vfWsEnd) Read(p []byte) (int, error) {
 	if len(p) == 0 {
@@ -63,6 +68,9 @@ func (e *vfWsEnd) Read(p []byte) (int, error) {
 			return 0, io.EOF
 		}
 		return 0, errVfWsWouldBlock
+	}
+	if e.chunk > 0 && len(p) > e.chunk {
+		p = p[:e.chunk]
 	}
 	n := copy(p, q.buf[q.off:])
 	q.off += n
@@ -89,6 +97,9 @@ type vfWsOp struct {
 	RealS bool   `json:"reals"`
 	MaxC  int    `json:"maxc"`
 	MaxS  int    `json:"maxs"`
+	// read granularity of the client's / the server's transport
+	ChunkC int `json:"chunkc"`
+	ChunkS int `json:"chunks"`
 }
 
 type vfWsSess struct {
@@ -147,17 +158,17 @@ func vfWsNewSess(env *vfEnv, t int, hdr vfWsOp) *vfWsSess {
 		toQ: map[string]*vfWsQueue{"c": {}, "s": {}}}
 	cfg := &Config{Version: ProtocolVersionHybi13}
 	if hdr.RealC {
-		ws := newHybiClientConn(cfg, nil, &vfWsEnd{in: s.toQ["c"], out: s.toQ["s"]})
+		ws := newHybiClientConn(cfg, nil, &vfWsEnd{in: s.toQ["c"], out: s.toQ["s"], chunk: hdr.ChunkC})
 		ws.MaxPayloadBytes = hdr.MaxC
 		s.conn["c"] = ws
 	}
 	if hdr.RealS {
-		ws := newHybiServerConn(cfg, nil, &vfWsEnd{in: s.toQ["s"], out: s.toQ["c"]}, new(http.Request))
+		ws := newHybiServerConn(cfg, nil, &vfWsEnd{in: s.toQ["s"], out: s.toQ["c"], chunk: hdr.ChunkS}, new(http.Request))
 		ws.MaxPayloadBytes = hdr.MaxS
 		s.conn["s"] = ws
 	}
 	env.Emit(t, map[string]any{"e": "hdr", "realc": hdr.RealC, "reals": hdr.RealS, "maxc": hdr.MaxC, "maxs": hdr.MaxS,
-		"def": DefaultMaxPayloadBytes, "allmax": vfWsAllMax})
+		"def": DefaultMaxPayloadBytes, "allmax": vfWsAllMax, "chunkc": hdr.ChunkC, "chunks": hdr.ChunkS})
 	return s
 }
 
@@ -385,7 +396,8 @@ func vfWsEncode(fin bool, op int, masked bool, key [4]byte, p []byte) []byte {
 	return b
 }
 
-var vfWsLens = []int{0, 1, 2, 3, 4, 5, 124, 125, 126, 127, 128, 129, 130, 131, 255, 256, 4095, 4096, 4097, 65534, 65535, 65536, 65537, 70000}
+var vfWsLens = []int{0, 1, 2, 3, 4, 5, 124, 125, 126, 127, 128, 129, 130, 131, 255, 256, 4083, 4084, 4085, 4087, 4088, 4089, 4095, 4096, 4097, 8179, 8180, 8181, 65534, 65535, 65536, 65537, 70000}
+var vfWsChunks = []int{0, 0, 0, 1, 2, 3, 5, 7, 4093}
 var vfWsLimits = []int{0, 0, 1, 2, 125, 126, 127, 1000, 4096, 65535, 65536, 70000}
 
 func (s *vfWsSess) pickLen(limit int) int {
@@ -409,7 +421,8 @@ func (s *vfWsSess) pickLen(limit int) int {
 // seeded sessions: both ends real (most), or one end scripted
 func vfWsSeeded(env *vfEnv, t, nops int) {
 	rnd := env.Rand(int64(t) + 7777777)
-	hdr := vfWsOp{RealC: true, RealS: true, MaxC: vfWsLimits[rnd.Intn(len(vfWsLimits))], MaxS: vfWsLimits[rnd.Intn(len(vfWsLimits))]}
+	hdr := vfWsOp{RealC: true, RealS: true, MaxC: vfWsLimits[rnd.Intn(len(vfWsLimits))], MaxS: vfWsLimits[rnd.Intn(len(vfWsLimits))],
+		ChunkC: vfWsChunks[rnd.Intn(len(vfWsChunks))], ChunkS: vfWsChunks[rnd.Intn(len(vfWsChunks))]}
 	switch rnd.Intn(8) {
 	case 0:
 		hdr.RealC = false
